@@ -1,12 +1,40 @@
 (* C01 -- Thrift runtime round trip on every protocol and buffer kind.
    Only statements, each closed by [exact] of a lemma proved in Proofs/, with
-   Print Assumptions beneath. *)
-From PV Require Import Thrift.Interp Proofs.PrimP.
+   Print Assumptions beneath.  p ranges over {binary, binary-LE, compact}, k over
+   {BytesMut, LinkedBytes zero-copy off, LinkedBytes zero-copy on}; the unchecked binary codec
+   is tied to the checked one by C11. *)
+From PV Require Import Thrift.Interp Proofs.HeaderP Proofs.RoundtripP.
 Open Scope Z_scope.
 
-(* primitive integers survive a write/read on every protocol, with arbitrary trailing bytes
-   and arbitrary reader context *)
-Theorem C01_prim_i32 : forall p z c, exists l, w_i32 p z c = Ok ([Copy l], c) /\
-  (in_s 32 z -> forall r rcx, r_i32 p (mkS (l ++ r) rcx) = Ok (z, mkS r rcx)).
-Proof. exact w_i32_ok. Qed.
-Print Assumptions C01_prim_i32.
+(* Every well-typed value tree, written with ANY writer context that has no bool field pending,
+   - is written successfully and leaves the writer context exactly as it was (balanced),
+   - is read back, from any reader context with nothing pending and with ARBITRARY trailing bytes
+     [r], as the same value (up to the key/value types of an empty compact map, which are not on
+     the wire), consuming exactly the bytes written (the remainder is [r]) and leaving the reader
+     context exactly as it was -- so a following value is read as if the reader were fresh. *)
+Theorem C01_roundtrip : forall p k v,
+  wt v = true ->
+  forall c, w_pend c = None ->
+  exists ss, write_val p k v c = Ok (ss, c) /\ (1 <= length (flat ss))%nat /\
+    forall fuel r rcx, (vsize v <= fuel)%nat -> idle rcx ->
+      read_val p fuel (ttype_of v) (mkS (flat ss ++ r) rcx) = Ok (canon p v, mkS r rcx).
+Proof. exact roundtrip_val. Qed.
+Print Assumptions C01_roundtrip.
+
+(* every sequence of values written back to back with one writer on one buffer and read with one
+   reader *)
+Theorem C01_sequence : forall p k vs,
+  forallb wt vs = true ->
+  forall c, w_pend c = None ->
+  exists ss, write_vals p k vs c = Ok (ss, c) /\
+    forall fuel r rcx, (forall v, In v vs -> (vsize v <= fuel)%nat) -> idle rcx ->
+      read_vals p fuel (map ttype_of vs) (mkS (flat ss ++ r) rcx) = Ok (map (canon p) vs, mkS r rcx).
+Proof. exact roundtrip_vals. Qed.
+Print Assumptions C01_sequence.
+
+(* the bytes (and the outcome) do not depend on the output buffer kind: contiguous, linked,
+   zero-copy on or off, payloads on either side of the threshold *)
+Theorem C01_bytes_buffer_independent : forall p k k' v c,
+  fl (write_val p k v c) = fl (write_val p k' v c).
+Proof. exact buffer_independent. Qed.
+Print Assumptions C01_bytes_buffer_independent.
